@@ -43,6 +43,8 @@ struct RunStats {
 struct RunResult {
   Verdict v;
   uint64_t event_hash = 0;
+  std::vector<uint64_t> task_hashes;  // per caller task: hash of everything that caller observed
+  std::vector<long> task_steps;       // fine mode: yield points passed by each task
   RunStats st;
   bool nontrivial = false;
   std::vector<std::vector<CallRec>> traces;  // per op (flattened in execution order), when requested
